@@ -210,8 +210,9 @@ func Compare(e exif2.Exif, r *gen.Record, c Ctx) []string {
 	}
 	stamp := func(name string, got time.Time, s gen.Stamp) {
 		if s.Date == nil {
-			if s.SubSec == nil && s.Offset == nil && !got.IsZero() {
-				bad("%s = %v but the tag is absent", name, got)
+			// sub-second and offset tags qualify a date: without the date tag there is no timestamp to report
+			if !got.IsZero() {
+				bad("%s = %v but the date tag is absent (sub-second %q, offset %q)", name, got, str(s.SubSec), str(s.Offset))
 			}
 			return
 		}
